@@ -214,9 +214,7 @@ def clause_remove_then_report(R, prefix, arms=None):
         # every successful-removal path reaches a reason check before returning Ok
         tstarts = []
         for rc in rcalls:
-            for si in hb.result_switches(lambda x, rc=rc: peel(x)[0] == "call" and peel(x)[1] == rc.bb):
-                if si["edges"].get(True) is not None:
-                    tstarts.append(si["edges"][True])
+            tstarts += [t_ for (_, t_) in outq.removed_edges(f, hb, rc, rem)]
         okc = bool(tstarts)
         qbbs = set(q["bb"] for q in qs)
         if any(hb.on_cycle(q["bb"]) for q in qs):
